@@ -224,3 +224,45 @@ Definition sp_op_gen (stale:bool) (pol:nat) (mc:machine) (o:op) (c:conf) : list 
   | _ => ([], None, c)
   end.
 Definition sp_op := sp_op_gen false.
+
+(* every history *)
+Fixpoint sp_run (stale:bool) (pol:nat) (mc:machine) (c:conf) (l:list op) : list (list titem * option (bool * bool) * list (list nat * list nat)) :=
+  match l with
+  | [] => []
+  | o :: t => let '(items, out, c') := sp_op_gen stale pol mc o c in (items, out, sp_snapshot mc c' []) :: sp_run stale pol mc c' t
+  end.
+
+(* ---- the same fragment and operation classes as booleans, for the direct comparison of this specification with the
+        library (harness/model_main.ml, mode spec): coreb is proved to imply core (Lemmas_Core.coreb_core) ---- *)
+Definition trig_plainb (x:row) : bool := match r_trig x with TrEv e => negb (Nat.eqb e EV_NONE) | _ => false end.
+Definition act_plainb (x:row) : bool := match r_act x with ActDefer => false | _ => true end.
+Definition noexitb (x:row) : bool := match r_exitpt x with None => true | Some _ => false end.
+Definition core_rowb (x:row) : bool :=
+  trig_plainb x && act_plainb x && noexitb x && match r_tgt x with TgNone => true | TgState _ => true | _ => false end.
+Definition core_irowb (x:row) : bool :=
+  trig_plainb x && act_plainb x && noexitb x && match r_tgt x with TgNone => true | _ => false end.
+Fixpoint coreb (mc:machine) {struct mc} : bool :=
+  let 'Machine states inits rows irows hist := mc in
+  forallb core_rowb rows && forallb core_irowb irows &&
+  (fix all (l:list state) : bool :=
+     match l with
+     | [] => true
+     | State k sub sirows defers _ _ :: t =>
+         match defers with [] => true | _ => false end && forallb core_irowb sirows &&
+         match sub, k with
+         | Some m, KSub => coreb m
+         | None, KSimple => true
+         | _, _ => false
+         end && all t
+     end) states.
+Definition plain_opb (o:op) : bool :=
+  match o with
+  | OStart _ [] => true
+  | OStop [] => true
+  | OProcess e _ [] => negb (Nat.eqb (e_ty e) EV_NONE)
+  | _ => false
+  end.
+
+(* the specification's trace of a history on a fresh object *)
+Definition spec_trace (stale:bool) (pol:nat) (mc:machine) (l:list op) :=
+  sp_run stale pol mc (abs (init_rnode mc)) l.
